@@ -25,7 +25,10 @@ func (i *JsUnixTime) UnmarshalJSON(b []byte) error {
 		return ErrInvalidInt64Js
 	}
 
-	strBuf := string(b[1 : lb-1])
+	strBuf := string(b)
+	if b[0] == '"' && b[lb-1] == '"' {
+		strBuf = string(b[1 : lb-1])
+	}
 	t, err := strconv.Atoi(strBuf)
 	if err != nil {
 		return err
@@ -54,7 +57,10 @@ func (i *JsNanoTime) UnmarshalJSON(b []byte) error {
 		return ErrInvalidInt64Js
 	}
 
-	strBuf := string(b[1 : lb-1])
+	strBuf := string(b)
+	if b[0] == '"' && b[lb-1] == '"' {
+		strBuf = string(b[1 : lb-1])
+	}
 	t, err := strconv.Atoi(strBuf)
 	if err != nil {
 		return err
